@@ -184,6 +184,23 @@ func run(p *kernel.Plan) (res *kernel.Result) {
 	pr.CC.Out.RSeg, pr.SC.Out.RSeg = int(p.C("rsegS")), int(p.C("rsegC"))
 	pr.CC.Out.WSeg, pr.SC.Out.WSeg = int(p.C("wsegC")), int(p.C("wsegS"))
 	ends := [2]*endState{{}, {}}
+	// prepared messages are shared by both endpoints and reused for equal
+	// payloads: their frame cache is keyed by role, compression and level
+	prepared := map[string]*websocket.PreparedMessage{}
+	for _, op := range p.Ops {
+		if op.N[3] == 4 {
+			k := fmt.Sprintf("%d/%d/%d", op.N[0], op.N[1], op.N[2]%4)
+			if prepared[k] == nil {
+				o2 := op
+				o2.N = append([]int64(nil), op.N...)
+				o2.N[2] = op.N[2] % 4
+				pm, err := websocket.NewPreparedMessage(int(op.N[0]), payloadOf(o2))
+				if err == nil {
+					prepared[k] = pm
+				}
+			}
+		}
+	}
 	writer := func(e int) func(t *kernel.Task) {
 		return func(t *kernel.Task) {
 			st := ends[e]
@@ -210,6 +227,10 @@ func run(p *kernel.Plan) (res *kernel.Result) {
 					continue
 				}
 				typ := int(op.N[0])
+				if op.N[3] == 4 {
+					op.N = append([]int64(nil), op.N...)
+					op.N[2] = op.N[2] % 4 // few distinct prepared payloads, so that they get reused
+				}
 				data := payloadOf(op)
 				c.EnableWriteCompression(op.N[6] != 0)
 				if op.N[6] != 0 {
@@ -250,10 +271,13 @@ func run(p *kernel.Plan) (res *kernel.Result) {
 						err = w.Close()
 					}
 				case 4:
-					var pm *websocket.PreparedMessage
-					pm, err = websocket.NewPreparedMessage(typ, data)
+					pm := prepared[fmt.Sprintf("%d/%d/%d", op.N[0], op.N[1], op.N[2])]
+					if pm == nil {
+						pm, err = websocket.NewPreparedMessage(typ, data)
+					}
 					if err == nil {
 						err = c.WritePreparedMessage(pm)
+						res.Stat("prepared_message_writes", 1)
 					}
 				case 5:
 					typ = websocket.TextMessage
